@@ -99,6 +99,7 @@ public:
         }
 
         std::size_t position(Handle h) {
+            std::lock_guard _(_mx);
             return _regs[h]._pos;
         }
 
